@@ -62,7 +62,10 @@ def forms(t, zones):
         yield 'naive-subclass', Stamp(naive.year, naive.month, naive.day,
                                       naive.hour, naive.minute,
                                       naive.second), t
-        yield 'aware-subclass', Stamp.fromtimestamp(t, tz=FIXED[0]), t
+        a = aware.astimezone(FIXED[0])      # (never fromtimestamp(): it asks
+        yield 'aware-subclass', Stamp(      # the C library, see right/ zones)
+            a.year, a.month, a.day, a.hour, a.minute, a.second,
+            tzinfo=FIXED[0]), t
     for i, tz in enumerate(FIXED):
         yield 'aware-fixed%d' % i, aware.astimezone(tz), t
     if t % 5 == 0:
@@ -137,10 +140,7 @@ def main():
                       isinstance(back, datetime.datetime) and
                       back.tzinfo is not None and
                       back.utcoffset() == datetime.timedelta(0) and
-                      back == EPOCH + datetime.timedelta(seconds=absolute)
-                      and (back.year, back.month, back.day, back.hour,
-                           back.minute, back.second) ==
-                      time.gmtime(absolute)[:6])
+                      back == EPOCH + datetime.timedelta(seconds=absolute))
                 shown = back.isoformat() if isinstance(
                     back, datetime.datetime) else repr(back)
             except Exception as exc:  # noqa
